@@ -13,7 +13,7 @@ from ..report import Ctx
 from ..skelrules import check_skeleton
 
 PROP = "C09"
-FLOORS = {"C09-I1": 5, "C09-G1": 4, "C09-M1": 2, "C09-B1": 4, "C09-N1": 3}
+FLOORS = {"C09-I1": 5, "C09-G1": 4, "C09-M1": 3, "C09-B1": 4, "C09-N1": 3}
 
 EXPLANATION = (
     "Decided: (a) the generators yield every permutation exactly once in (length, lexicographic) order by construction – of_length is "
@@ -84,6 +84,12 @@ def rule_m1(ctx: Ctx) -> None:
     ts = repo.need_method("Perm", "to_standard")
     ctx.run(check_skeleton, ctx, "C09-M1", ts, ["return cls._to_standard(tuple(a0))"], "to_standard materialises its argument exactly once (tuple) before the memo", required_calls=["_to_standard", "tuple"])
     memo = repo.need_method("Perm", "_to_standard")
+    # definition: positions sorted stably by value (ties keep their left-to-right order: sorted() is stable), then inverted
+    ctx.run(check_skeleton, ctx, "C09-M1", memo, [
+        "return cls(i for (i, _) in sorted(enumerate(a0), key=operator.itemgetter(1))).inverse()",
+        "return cls(i for (i, _) in sorted(enumerate(a0), key=lambda t: t[1])).inverse()",
+        "return cls(sorted(range(len(a0)), key=a0.__getitem__)).inverse()",
+    ], "standardisation = inverse of the stable argsort (ties broken left to right)", required_calls=["sorted", "inverse"])
     if not any("lru_cache" in d or d.endswith("cache") for d in memo.decorators):
         ctx.ok("C09-M1", memo.where, "no memo on the standardisation: nothing depends on earlier calls", memo.node, memo)
         return
@@ -356,6 +362,9 @@ def _variants():
         V("to-standard-no-materialise", replace_expr(PE, "Perm.to_standard", "cls._to_standard(tuple(iterable))", "cls._to_standard(iterable)"), "fire", "C09-M1"),
         V("to-standard-memo-impure", [insert_stmt(PE, None, "class Perm(Tuple[int], Patt): ...", "_STD_LOG = []", "before"),
                                       replace_expr(PE, "Perm._to_standard", "sorted(enumerate(iterable), key=operator.itemgetter(1))", "sorted(enumerate(iterable), key=lambda t: (t[1], len(_STD_LOG)))")], "fire", "C09-M1"),
+        V("to-standard-no-inverse", replace_expr(PE, "Perm._to_standard", "cls((idx for idx, _ in sorted(enumerate(iterable), key=operator.itemgetter(1)))).inverse()", "cls((idx for idx, _ in sorted(enumerate(iterable), key=operator.itemgetter(1))))"), "fire", "C09-M1"),
+        V("to-standard-sort-by-index", replace_expr(PE, "Perm._to_standard", "operator.itemgetter(1)", "operator.itemgetter(0)"), "fire", "C09-M1"),
+        V("to-standard-reverse-sort", replace_expr(PE, "Perm._to_standard", "sorted(enumerate(iterable), key=operator.itemgetter(1))", "sorted(enumerate(iterable), key=operator.itemgetter(1), reverse=True)"), "fire", "C09-M1"),
         V("to-standard-memo-random", replace_expr(PE, "Perm._to_standard", "operator.itemgetter(1)", "lambda t: (t[1], random.random())"), "fire", "C09-M1"),
         V("rank-transposed", replace_expr(MP, "MeshPatt.rank", "x * (n + 1) + y", "y * (n + 1) + x"), "fire", "C09-B1"),
         V("rank-base-n", replace_expr(MP, "MeshPatt.rank", "x * (n + 1) + y", "x * n + y"), "fire", "C09-B1"),
